@@ -424,12 +424,15 @@ class ErrorRanges:
         self._lengths = self._compute_lengths()
 
     def _compute_lengths(self) -> List[int]:
+        # The number of allowed errors for a match of length n is int(error_rate * n)
+        # (the same formula that the aligner uses). Record each length after which
+        # that number increases.
         lengths = [
-            int(errors / self.error_rate) - 1
-            for errors in range(1, int(self.error_rate * self.length) + 1)
+            n
+            for n in range(1, self.length)
+            if int(self.error_rate * (n + 1)) > int(self.error_rate * n)
         ]
-        if not lengths or lengths[-1] < self.length:
-            lengths.append(self.length)
+        lengths.append(self.length)
         return lengths
 
     def __repr__(self):
